@@ -1,5 +1,6 @@
 import ACModel.Props.C01
 import ACModel.Props.C05
+import ACModel.Proofs.Merge
 /-
   C03 — Grouping preserves each feature's order (contiguity, monotone transform)
 
@@ -141,10 +142,35 @@ theorem contiguous_trans {α : Type} (order : List α) (c1 : List (List α)) (c2
       simp only [List.flatten_cons, List.append_eq_nil_iff] at e
       exact this e.1
 
+/-! ## Ordinal features and rare quantile buckets: merged groups are consecutive runs -/
+
+/-- **The groups built by `find_common_modalities` are, in order, consecutive segments of the
+    ranking** (each group a permutation of its segment: the code lists the discarded members first) —
+    for every ranking, every statistics table, every `min_freq`, whatever `find_closest_modality`
+    answers (its float comparisons are not unfolded: only "previous or next" is used).  This covers
+    ordinal features (`OrdinalDiscretizer`) and the rare quantile buckets merged by
+    `QuantitativeDiscretizer` (there the ranking is the list of interval labels). -/
+theorem ordinal_groups_contiguous {α : Type} (labels : List α) (stats : List BaseDisc.Stat) (lenDf : Nat) (minFreq : Rat)
+    (hlen : labels.length = stats.length) :
+    Merge.RunsOf (BaseDisc.findCommonModalities labels stats lenDf minFreq) labels := by
+  unfold BaseDisc.findCommonModalities
+  exact (Merge.mergeLoop_inv (fun _ _ => True) (fun _ _ _ _ _ _ => trivial) labels.length
+    (labels.map (fun l => [l])) stats lenDf minFreq (Merge.runsOf_singletons labels)
+    (Merge.rel2_true _ _ (by simpa using hlen))).1
+
+/-- … so no value is lost or duplicated by the merging: the groups together are a permutation of the ranking -/
+theorem ordinal_groups_cover {α : Type} (labels : List α) (stats : List BaseDisc.Stat) (lenDf : Nat) (minFreq : Rat)
+    (hlen : labels.length = stats.length) :
+    (BaseDisc.findCommonModalities labels stats lenDf minFreq).flatten.Perm labels :=
+  Merge.runsOf_flatten_perm _ _ (ordinal_groups_contiguous labels stats lenDf minFreq hlen)
+
 /-! ## Non-vacuity -/
 example : StrictAsc [.num 1, .num 5, .inf] := by
   refine ⟨⟨by decide, by decide⟩, ⟨by decide, by decide⟩, trivial⟩
 example : groupIdx [.num 1, .num 5, .inf] (.num 5) = 1 := by decide
 example : groupIdx [.num 1, .num 5, .inf] (.num (11/2)) = 2 := by decide +kernel
 
+-- a ranking of four modalities whose two rare ends are merged into their neighbours
+example : BaseDisc.findCommonModalities ["a", "b", "c", "d"] [⟨1, some 0⟩, ⟨10, some 5⟩, ⟨10, some 2⟩, ⟨1, some 1⟩] 22 (1/10)
+    = [["a", "b"], ["d", "c"]] := by decide +kernel
 end C03
